@@ -626,10 +626,16 @@ func (st *State) cellFor(h *Term, elem types.Type) (Cell, bool) {
 	}
 	// lazily materialise the target of a symbolic pointer
 	var v Value
-	switch u := under(elem).(type) {
-	case *types.Map:
-		_ = u
-		v = st.symValue(elem, h)
+	switch under(elem).(type) {
+	case *types.Slice, *types.Map, *types.Chan:
+		// the value stored in the cell is itself a reference to a heap object (backing array, map,
+		// channel): that object has a handle of its own, not the handle of the cell that holds the
+		// reference (a *[]T parameter: the cell holds the slice header, the elements live elsewhere)
+		ph := UF("pointee", SInt, h)
+		// an object that existed before is not one of the objects this activation allocates (those
+		// have concrete handles above 1000)
+		st.assume(Le(ph, Int(1000)))
+		v = st.symValue(elem, ph)
 	default:
 		v = st.symValue(elem, h)
 	}
